@@ -84,10 +84,12 @@ FlatBlocks(path, blocks, c) ==
     ELSE LET here == FlatBlock(path, Head(blocks), FALSE, c)
          IN  here \o FlatBlocks(path, Tail(blocks), IF IsContainer(Head(blocks)) /\ here # <<>> THEN c + 1 ELSE c)
 
-\* (a dropped HTML block at the head of an item is not "the first block")
+\* (a dropped HTML block at the head of an item is not "the first block"; neither is a quote or list that holds
+\* nothing but dropped blocks: it is not written at all, so what follows it is what the item starts with)
 FlatItem(path, blocks) ==
     IF blocks = <<>> THEN <<>>
     ELSE IF Head(blocks).k = "Html" THEN FlatItem(path, Tail(blocks))
+    ELSE IF IsContainer(Head(blocks)) /\ FlatBlock(path, Head(blocks), TRUE, 1) = <<>> THEN FlatItem(path, Tail(blocks))
     ELSE LET here == FlatBlock(path, Head(blocks), TRUE, 1)
          IN  here \o FlatBlocks(path, Tail(blocks), IF IsContainer(Head(blocks)) /\ here # <<>> THEN 2 ELSE 1)
 
